@@ -216,6 +216,8 @@ def _body_contract(iface, name):
         stub_methods={**BODY_STUB_METHODS, ("%s:Request" % rel, "_parse_multipart"): parse_multipart_stub},
         stubs={"self.body.decode": decode_stub, "data.decode": decode_stub, "(await self.body).decode": decode_stub,
                "json.loads": json_loads_stub, "str": str_of_exc, "parse_qsl": parse_qsl_stub, "FormData": formdata_stub},
+        # (encode() of client-controlled text is checked: Latin-1 is total on header text, ASCII is not)
+        check_encode=True,
         frame_check=False, assumptions=["A-bytes", "A-json", "A-qsl"], notes=HTTP_ONLY)
     if name == "json":
         return Contract(
